@@ -5,6 +5,8 @@
   It imports nothing but the generated file, so the answers are those of the translated source.
 -/
 import PySpikeVerif.Gen.Api
+import PySpikeVerif.Gen.ApiThresh
+import PySpikeVerif.Gen.ApiTrain
 open PySpike.Gen
 
 def parseQ (s : String) : Option Rat :=
@@ -42,6 +44,10 @@ def handle (op : String) (f : List (List Rat)) : String :=
         match L with
         | [a, b] => match PySpike.GenApi.reconcile_spike_trains_bi a b with | some (x, y) => showTrains [x, y] | none => "reject"
         | _ => "bad-op"
+      | "default_thresh_sq" => match PySpike.GenApi.default_thresh_sq 4 L with | some v => showQ v | none => "reject"
+      | "train_nonempty" => match L.mapM PySpike.GenApi.SpikeTrain.get_spikes_non_empty with | some ls => showFields ls | none => "reject"
+      | "train_copy" => match L.mapM PySpike.GenApi.SpikeTrain.copy with | some R => showTrains R | none => "reject"
+      | "train_sort" => match L.mapM PySpike.GenApi.SpikeTrain.sort with | some R => showTrains R | none => "reject"
       | "merge" => match PySpike.GenApi.merge_spike_trains L with | some t => showTrains [t] | none => "reject"
       | _ => "bad-op"
   | _ => "bad-op"
